@@ -126,6 +126,186 @@ theorem fail_two {e1 e2 : LExpr} (ih1 : FailSpec e1) (ih2 : FailSpec e2) (o : Op
       have := stuck_op (K := K) (stk := stk) (g := g2) ho hne
       simpa [bytes_append, Nat.add_assoc] using this
 
+/-! ## match: a range comparison against a scrutinee of another kind -/
+
+theorem fail_pat (p : LPat) (la : Nat) (C : List Instr) (K : List Val) (pos k t : Nat) (v : Val) (stk g : List Val)
+    (h : codeAt C pos (compilePat pos k t (erasePat p))) (hp : poolAt K k (patConsts (erasePat p)))
+    (ht : patTest v (erasePat p) = none) :
+    FailsAt C K pos (compilePat pos k t (erasePat p)) (lineTablePat la p) ⟨pos, v :: stk, g⟩ p.line := by
+  cases p with
+  | lit l c => simp [erasePat, patTest, execOperator] at ht
+  | bool l c => simp [erasePat, patTest, execOperator] at ht
+  | dflt l => simp [erasePat, patTest] at ht
+  | range l incl lo hi =>
+    simp only [erasePat, patTest] at ht
+    simp only [erasePat, compilePat, lineTablePat, LPat.line] at h ⊢
+    simp only [erasePat, patConsts] at hp
+    have hA : codeAt C pos [.dup, .const k, .op .greaterEq, .jif (pos + 16)] :=
+      codeAt_left (b := [.dup, .const (k + 1), .op (if incl then .greater else .greaterEq), .jif t]) (by simpa using h)
+    have hB : codeAt C (pos + 8) [.dup, .const (k + 1), .op (if incl then .greater else .greaterEq), .jif t] := by
+      have := codeAt_right (a := [.dup, .const k, .op .greaterEq, .jif (pos + 16)]) (by simpa using h)
+      simpa [bytes, Instr.size] using this
+    have hp1 : poolAt K k [lo] := poolAt_left (b := [hi]) (by simpa using hp)
+    have hp2 : poolAt K (k + 1) [hi] := by
+      have := poolAt_right (a := [lo]) (b := [hi]) (by simpa using hp)
+      simpa using this
+    obtain ⟨hd1, hA'⟩ := codeAt_cons hA
+    obtain ⟨hc1, hA'⟩ := codeAt_cons hA'
+    obtain ⟨ho1, _⟩ := codeAt_cons hA'
+    have hc1 : codeAt C (pos + 1) [Instr.const k] := hc1
+    have ho1 : codeAt C (pos + 1 + 3) [Instr.op .greaterEq] := ho1
+    have sA : Steps C K ⟨pos, v :: stk, g⟩ ⟨pos + 1 + 3, lo :: v :: v :: stk, g⟩ :=
+      (Steps.one (step_dup hd1)).trans (Steps.one (step_const hc1 (poolAt_get hp1)))
+    cases hop1 : execOperator .greaterEq v lo with
+    | ok r1 =>
+      simp only [hop1] at ht
+      by_cases hf : r1.isFalsey = true
+      · simp [hf] at ht
+      · simp only [hf, Bool.false_eq_true, if_false] at ht
+        have hne : ∀ r, execOperator (if incl then .greater else .greaterEq) v hi ≠ .ok r := by
+          intro r hr; simp [hr] at ht
+        have s1 := cmp_steps (sz := 3) (g := g) (stk := stk) (.const k) rfl (fun stk' => step_const hc1 (poolAt_get hp1)) hA hop1
+        simp only [hf, Bool.false_eq_true, if_false] at s1
+        obtain ⟨hd2, hB'⟩ := codeAt_cons hB
+        obtain ⟨hc2, hB'⟩ := codeAt_cons hB'
+        obtain ⟨ho2, _⟩ := codeAt_cons hB'
+        have hc2 : codeAt C (pos + 8 + 1) [Instr.const (k + 1)] := hc2
+        have ho2 : codeAt C (pos + 8 + 1 + 3) [Instr.op (if incl then .greater else .greaterEq)] := ho2
+        have sB : Steps C K ⟨pos + 8, v :: stk, g⟩ ⟨pos + 8 + 1 + 3, hi :: v :: v :: stk, g⟩ :=
+          (Steps.one (step_dup hd2)).trans (Steps.one (step_const hc2 (poolAt_get hp2)))
+        refine ⟨_, 12, (s1.to (by simp)).trans sB, stuck_op ho2 hne, by simp, ?_⟩
+        simp [lineAt, Instr.size]
+    | err m =>
+      refine ⟨_, 4, sA, stuck_op ho1 (by intro r hr; simp [hop1] at hr), by simp, ?_⟩
+      simp [lineAt, Instr.size]
+    | panic m =>
+      refine ⟨_, 4, sA, stuck_op ho1 (by intro r hr; simp [hop1] at hr), by simp, ?_⟩
+      simp [lineAt, Instr.size]
+
+theorem fail_pats (la : Nat) : ∀ (ps : List LPat) (C : List Instr) (K : List Val) (pos k t : Nat) (v : Val) (stk g : List Val) (L : Nat),
+    codeAt C pos (compilePats pos k t (ps.map erasePat)) → poolAt K k (patsConsts (ps.map erasePat)) →
+    patsFailLine v ps = some L →
+    FailsAt C K pos (compilePats pos k t (ps.map erasePat)) (lineTablePats la ps) ⟨pos, v :: stk, g⟩ L
+  | [], C, K, pos, k, t, v, stk, g, L, _, _, hf => by simp [patsFailLine] at hf
+  | p :: ps, C, K, pos, k, t, v, stk, g, L, h, hp, hf => by
+    simp only [List.map, compilePats, lineTablePats] at h ⊢
+    simp only [List.map, patsConsts] at hp
+    simp only [patsFailLine] at hf
+    cases ht : patTest v (erasePat p) with
+    | none =>
+      simp only [ht, Option.some.injEq] at hf
+      subst hf
+      exact (fail_pat p la C K pos k t v stk g (codeAt_left h) (poolAt_left hp) ht).left _ _
+    | some b =>
+      cases b with
+      | true => simp [ht] at hf
+      | false =>
+        simp only [ht] at hf
+        have s1 := pat_correct (erasePat p) C K pos k t v stk g false (codeAt_left h) (poolAt_left hp) ht
+        simp only [Bool.false_eq_true, if_false] at s1
+        have hr := codeAt_right h
+        have f2 := fail_pats la ps C K (pos + patBytes (erasePat p)) (k + (patConsts (erasePat p)).length) t v stk g L
+          (by simpa [bytes_compilePat] using hr) (poolAt_right hp) hf
+        refine FailsAt.right _ _ (lineTablePat_length la pos k t p) s1 ?_
+        rw [bytes_compilePat]; exact f2
+
+/-- the arms of a match, entered with the scrutinee on the stack -/
+theorem fail_arms (lm : Nat) : ∀ (arms : LArms), arms.All FailSpec →
+    ∀ (C : List Instr) (K : List Val) (pos k : Nat) (stk g : List Val) (v : Val) (L : Nat),
+    codeAt C pos (compileArms pos k (eraseArms arms)) → poolAt K k (constsArms (eraseArms arms)) →
+    failLineArms g v arms = some L →
+    FailsAt C K pos (compileArms pos k (eraseArms arms)) (lineTableArms lm arms) ⟨pos, v :: stk, g⟩ L := by
+  intro arms
+  induction arms using LArms.ind with
+  | last la lp d =>
+    intro hall C K pos k stk g v L h hp hf
+    simp only [LArms.All] at hall
+    simp only [eraseArms, compileArms, lineTableArms] at h ⊢
+    simp only [eraseArms, constsArms] at hp
+    simp only [failLineArms] at hf
+    generalize hcd : compile (pos + 3 + 3 + 1) k (erase d) = cd at *
+    obtain ⟨h1, h'⟩ := codeAt_cons (by simpa using h)
+    obtain ⟨_, h'⟩ := codeAt_cons h'
+    obtain ⟨h3, h'⟩ := codeAt_cons h'
+    have h3 : codeAt C (pos + 3 + 3) [Instr.pop] := h3
+    have h' : codeAt C (pos + 3 + 3 + 1) cd := h'
+    have s1 : Steps C K ⟨pos, v :: stk, g⟩ ⟨pos + 3 + 3 + 1, stk, g⟩ :=
+      (Steps.one (step_jump h1)).trans (Steps.one (step_pop h3))
+    have f2 := hall C K (pos + 3 + 3 + 1) k stk g L (hcd ▸ h') hp hf
+    rw [hcd] at f2
+    refine FailsAt.right [.jump (pos + 3 + 3), .jump (pos + 3 + 3 + 1 + bytes cd), .pop] [lp, la, la] rfl s1 ?_
+    have e : pos + bytes [Instr.jump (pos + 3 + 3), Instr.jump (pos + 3 + 3 + 1 + bytes cd), Instr.pop] = pos + 3 + 3 + 1 := by
+      simp [bytes, Instr.size]
+    rw [e]; exact f2
+  | cons la pats body rest ih =>
+    intro hall C K pos k stk g v L h hp hf
+    simp only [LArms.All] at hall
+    simp only [eraseArms, compileArms, lineTableArms] at h ⊢
+    simp only [eraseArms, constsArms] at hp
+    simp only [failLineArms] at hf
+    have hlp := lineTablePats_length la (pos + patsBytes (pats.map erasePat) + 3) pats pos k
+    have hlb := lineTable_length (pos + patsBytes (pats.map erasePat) + 3 + 1) (k + (patsConsts (pats.map erasePat)).length) body
+    generalize hps : pats.map erasePat = ps at *
+    generalize hcb : compile (pos + patsBytes ps + 3 + 1) (k + (patsConsts ps).length) (erase body) = cb at *
+    generalize hcr : compileArms (pos + patsBytes ps + 3 + 1 + bytes cb + 3)
+      (k + (patsConsts ps).length + (consts (erase body)).length) (eraseArms rest) = cr at *
+    have hpats : codeAt C pos (compilePats pos k (pos + patsBytes ps + 3) ps) :=
+      codeAt_left (codeAt_left (codeAt_left (codeAt_left h)))
+    have hjo : codeAt C (pos + patsBytes ps) [Instr.jump (pos + patsBytes ps + 3 + 1 + bytes cb + 3)] := by
+      have := codeAt_mid (compilePats pos k (pos + patsBytes ps + 3) ps) [_]
+        (.pop :: (cb ++ [.jump (pos + patsBytes ps + 3 + 1 + bytes cb + 3 + bytes cr)] ++ cr)) (by simpa using h)
+      simpa [bytes_compilePats] using this
+    have hpop : codeAt C (pos + patsBytes ps + 3) [Instr.pop] := by
+      have := codeAt_mid (compilePats pos k (pos + patsBytes ps + 3) ps ++ [.jump (pos + patsBytes ps + 3 + 1 + bytes cb + 3)]) [.pop]
+        (cb ++ [.jump (pos + patsBytes ps + 3 + 1 + bytes cb + 3 + bytes cr)] ++ cr) (by simpa using h)
+      exact this.to (by simp [bytes_append, bytes_compilePats, bytes, Instr.size]; omega)
+    have hbody : codeAt C (pos + patsBytes ps + 3 + 1) cb :=
+      (codeAt_right (codeAt_left (codeAt_left h))).to (by simp [bytes_append, bytes_compilePats, bytes, Instr.size]; omega)
+    have hrest : codeAt C (pos + patsBytes ps + 3 + 1 + bytes cb + 3) cr :=
+      (codeAt_right h).to (by simp [bytes_append, bytes_compilePats, bytes, Instr.size]; omega)
+    have hpp : poolAt K k (patsConsts ps) := poolAt_left (poolAt_left hp)
+    have hpb : poolAt K (k + (patsConsts ps).length) (consts (erase body)) := poolAt_right (poolAt_left hp)
+    have hpr : poolAt K (k + (patsConsts ps).length + (consts (erase body)).length) (constsArms (eraseArms rest)) := by
+      have := poolAt_right hp
+      simpa [Nat.add_assoc] using this
+    cases hm : patsTest v ps with
+    | none =>
+      simp only [hm] at hf
+      have f1 := fail_pats la pats C K pos k (pos + patsBytes ps + 3) v stk g L (by rw [hps]; exact hpats) (by rw [hps]; exact hpp) hf
+      rw [hps] at f1
+      exact (((f1.left _ _).left _ _).left _ _).left _ _
+    | some b =>
+      have sp := pats_correct ps C K pos k (pos + patsBytes ps + 3) v stk g b hpats hpp hm
+      cases b with
+      | true =>
+        simp only [hm] at hf
+        simp only [if_true] at sp
+        have s1 := sp.trans (Steps.one (step_pop hpop))
+        have f2 := hall.1 C K _ _ stk g L (hcb ▸ hbody) hpb hf
+        rw [hcb] at f2
+        refine ((FailsAt.right (compilePats pos k (pos + patsBytes ps + 3) ps ++
+          [Instr.jump (pos + patsBytes ps + 3 + 1 + bytes cb + 3), Instr.pop]) (lineTablePats la pats ++ [la, la])
+          (by simp [hlp]) s1 ?_).left _ _).left _ _
+        have e : pos + bytes (compilePats pos k (pos + patsBytes ps + 3) ps ++
+            [Instr.jump (pos + patsBytes ps + 3 + 1 + bytes cb + 3), Instr.pop]) = pos + patsBytes ps + 3 + 1 := by
+          simp [bytes_append, bytes_compilePats, bytes, Instr.size]; omega
+        rw [e]; exact f2
+      | false =>
+        simp only [hm] at hf
+        simp only [Bool.false_eq_true, if_false] at sp
+        have s1 := sp.trans (Steps.one (step_jump hjo))
+        have f2 := ih hall.2 C K _ _ stk g v L (hcr ▸ hrest) hpr hf
+        rw [hcr] at f2
+        refine FailsAt.right (compilePats pos k (pos + patsBytes ps + 3) ps ++
+          [Instr.jump (pos + patsBytes ps + 3 + 1 + bytes cb + 3), Instr.pop] ++ cb ++
+          [Instr.jump (pos + patsBytes ps + 3 + 1 + bytes cb + 3 + bytes cr)])
+          (lineTablePats la pats ++ [la, la] ++ lineTable body ++ [lm]) (by simp [hlp, hlb]) s1 ?_
+        have e : pos + bytes (compilePats pos k (pos + patsBytes ps + 3) ps ++
+            [Instr.jump (pos + patsBytes ps + 3 + 1 + bytes cb + 3), Instr.pop] ++ cb ++
+            [Instr.jump (pos + patsBytes ps + 3 + 1 + bytes cb + 3 + bytes cr)]) = pos + patsBytes ps + 3 + 1 + bytes cb + 3 := by
+          simp [bytes_append, bytes_compilePats, bytes, Instr.size]; omega
+        rw [e]; exact f2
+
 theorem fail_line_all (e : LExpr) : FailSpec e := by
   induction e with
   | lit | tru | fls | null | gget => intro C K pos k stk g L _ _ hf; simp [failLine] at hf
@@ -317,6 +497,21 @@ theorem fail_line_all (e : LExpr) : FailSpec e := by
         have e : pos + bytes (cc ++ [Instr.jif (pos + bytes cc + 3 + bytes ct + 3)]) = pos + bytes cc + 3 := by
           simp [bytes_append, bytes, Instr.size]; omega
         rw [e]; exact f2
+  | matchE l s arms ihs iharms =>
+    intro C K pos k stk g L h hp hf
+    simp only [erase, compile, lineTable] at h ⊢
+    simp only [erase, consts] at hp
+    simp only [failLine] at hf
+    cases hes : eval g (erase s) with
+    | none =>
+      simp only [hes] at hf
+      exact (ihs C K pos k stk g L (codeAt_left h) (poolAt_left hp) hf).left _ _
+    | some r =>
+      obtain ⟨v, g1⟩ := r
+      simp only [hes] at hf
+      have s1 := compile_correct (erase s) C K pos k stk g v g1 (codeAt_left h) (poolAt_left hp) hes
+      have f2 := fail_arms l arms iharms C K _ _ stk g1 v L (codeAt_right h) (poolAt_right hp) hf
+      exact FailsAt.right _ _ (lineTable_length pos k s) s1 f2
 
 
 theorem lineAt_lt {c : List Instr} {ls : List Nat} {off L : Nat} (h : lineAt c ls off = some L) :
